@@ -150,7 +150,7 @@ def prefix_stream(ctx):
     from . import common
     rnd = ctx.rng("prefix")
     regs = []
-    for _ in range(ctx.scale(1500, 30000)):
+    for _ in range(ctx.scale(1500, 10000)):
         regs.append(tg.regex(rnd) if rnd.random() < 0.3 else rxgen.regex(rnd))
     regs += DOC_REGEXES
     rc, so, se = common.run_side(common.HARNESS, ["rxast"], "".join(tg.hx(r) + "\n" for r in regs), 300)
@@ -175,17 +175,40 @@ def prefix_stream(ctx):
             q1.append("m %s %s" % (tg.hx(r), tg.hx(n)))
         q2.append("a %s %s" % (tree, " ".join(tg.hx(n) for n in names)))
         meta.append((r, b"" if pfx == "-" else bytes.fromhex(pfx), tree, names))
-    rc, so, se = common.run_side(common.HARNESS, ["rx"], "\n".join(q1) + "\n", 600)
+    rc, so, se = common.run_side(common.HARNESS, ["rx"], "\n".join(q1) + "\n", 1800)
     gobits = so.split("\n")
-    rc2, so2, se2 = common.run_side(common.DRIVER, ["absprefix"], "\n".join(q2) + "\n", 600)
-    absout = so2.split("\n")
+    # the over-approximating matcher on the dumped tree is a backtracking search: a few (regex, name) pairs take it very long.
+    # Run it in chunks; a chunk that does not finish is halved until the slow entries are isolated, and those are skipped
+    # (counted below; more than 1% skipped fails the obligation)
+    absout, skipped, rc2, se2 = [], 0, 0, ""
+
+    def run_chunk(qs, budget):
+        nonlocal skipped, rc2, se2
+        r, so_, se_ = common.run_side(common.DRIVER, ["absprefix"], "\n".join(qs) + "\n", budget)
+        lines_ = so_.split("\n")
+        if r == 0 and len(lines_) >= len(qs):
+            return lines_[:len(qs)]
+        if len(qs) == 1:
+            skipped += 1
+            if r != -9:
+                rc2, se2 = r, se_
+            return ["SKIP"]
+        h = len(qs) // 2
+        return run_chunk(qs[:h], budget) + run_chunk(qs[h:], budget)
+    for i in range(0, len(q2), 400):
+        absout += run_chunk(q2[i:i + 400], 120)
+    ctx.hist("regex-prefix", "abstraction entries skipped (time limit)", skipped)
+    ctx.oblige("regex-prefix: harness (Go regexp) and driver (abstraction on the dumped trees) ran to completion", "tie-B",
+               rc == 0 and rc2 == 0 and len(absout) >= len(meta) and len(gobits) >= len(q1) and skipped * 100 <= max(100, len(meta)),
+               "harness rc=%d driver rc=%d skipped=%d: %s" % (rc, rc2, skipped, (se + se2)[-300:]))
     k = 0
     nwit = nle = nsub = nmatch = 0
     for (r, pfx, tree, names), ao in zip(meta, absout):
-        sp, bits = (ao.split() + [""])[:2]
-        sound = b"" if sp == "-" else bytes.fromhex(sp)
+        sp, bits = (ao.split() + ["", ""])[:2]
+        skip = sp == "SKIP"
+        sound = b"" if sp in ("-", "", "SKIP") else bytes.fromhex(sp)
         ctx.evaluations += 1
-        if not sound.startswith(pfx):
+        if not skip and not sound.startswith(pfx):
             nle += 1
             if nle <= 2:
                 ctx.problem("correspondence", "regex-prefix", ["regex %r" % r], "derived prefix %r is not a prefix of soundPrefix(tree)=%r, tree %s" % (pfx, sound, tree), False)
@@ -200,7 +223,7 @@ def prefix_stream(ctx):
                     if nwit <= 3:
                         ctx.problem("property-monitor", "regex-prefix", ["regex %r" % r, "name %r" % n],
                                     "regex %r matches %r (Go regexp) but the matcher derived the static prefix %r, so Match rejects the name" % (r, n, pfx), True)
-                if j < len(bits) and bits[j] != "1":
+                if not skip and j < len(bits) and bits[j] != "1":
                     nsub += 1
                     if nsub <= 2:
                         ctx.problem("correspondence", "regex-abstraction", ["regex %r" % r, "name %r" % n],
